@@ -70,12 +70,12 @@ PROPS = {
     },
     'C10': {
         'level': 'proof',
-        'explanation': 'Phase proofs on the real text of Table.join (left join), arbitrary rows and keys, one key and one payload column per side: index-build invariant (as C09), probe / emit invariants - every left row contributes one contiguous block, in left order: one row per key-equal right row in ascending right order, or exactly one row padded with None in every right column when nothing matches - and the exit assertion (buffers wrapped under the input names; no columns for an empty left table). Table.full_join, the containment / symmetry relations between the three joins, multi-column keys and name-resolved keys are bounded only (same enumerator as C09: all table pairs up to 3x3 rows, 4x4 thorough).',
-        'trusted': ['_validate_join_keys / _validate_key_tuple_hashable: trusted contracts (bounded)', 'symbolic container model for dict / list / set (pyvc/symcoll.py)', 'Table.full_join is not under a loop invariant: bounded stand-in only', 'schema width fixed at 1 key + 1 payload column per side in the proofs; rows unbounded'],
+        'explanation': "Phase proofs on the real text of Table.join (left join) and Table.full_join, arbitrary rows and keys, one key and one payload column per side. Left join: index-build invariant (as C09), probe / emit invariants - every left row contributes one contiguous block, in left order: one row per key-equal right row in ascending right order, or exactly one row padded with None in every right column when nothing matches - and the exit assertion (buffers wrapped under the input names; no columns for an empty left table). Full join: the same left phase plus an exact `matched_right_rows` set (a right row is recorded iff its key occurs among the processed left rows; ghost witness), the third loop appends every unmatched right row exactly once in ascending order with None in every left column and leaves the left-phase rows untouched, and the exit assertion wraps the buffers. The containment / symmetry relations between the three joins, multi-column keys and name-resolved keys are bounded only (same enumerator as C09: all table pairs up to 3x3 rows, 4x4 thorough).",
+        'trusted': ['_validate_join_keys / _validate_key_tuple_hashable: trusted contracts (bounded)', 'symbolic container model for dict / list / set (pyvc/symcoll.py)', 'schema width fixed at 1 key + 1 payload column per side in the proofs; rows unbounded'],
     },
     'C11': {
         'level': 'proof',
-        'explanation': 'The uniqueness flags and the expect validation of inner_join / join / full_join are extracted by a mechanical statement slice (kept: the expect test and the two flag assignments; refused if they are not unconditional top-level assignments over `expect` only) and proved equal to the statement (complete 4x3 decision table plus rejection of every other string). That the flags are *used* correctly is proved for inner_join and join by the loop invariants of C09/C10 (the duplicate record after the index loop is non-empty iff some right key repeats, the left seen-set is exactly the set of processed left keys, so each raise happens iff the stated side repeats a key; arbitrary rows, one key column); the use of the flags in full_join and multi-column keys are bounded (full decision table over all key multisets of size <=3).',
+        'explanation': 'The uniqueness flags and the expect validation of inner_join / join / full_join are extracted by a mechanical statement slice (kept: the expect test and the two flag assignments; refused if they are not unconditional top-level assignments over `expect` only) and proved equal to the statement (complete 4x3 decision table plus rejection of every other string). That the flags are *used* correctly is proved for inner_join, join and full_join by the loop invariants of C09/C10 (the duplicate record after the index loop is non-empty iff some right key repeats, the left seen-set is exactly the set of processed left keys, so each raise happens iff the stated side repeats a key; arbitrary rows, one key column); multi-column keys are bounded (full decision table over all key multisets of size <=3).',
         'trusted': ['statement slice: everything except the expect test and the flag assignments is dropped in the flag obligations; the loop-invariant variants run the whole function text'],
     },
     'C12': {
